@@ -53,6 +53,7 @@ type Runtime struct {
 	ReturnSnap    *simrt.Inode
 	ReturnRunning []string // keys of commands still in flight when Run returned
 	WF            *sp.Workflow
+	PreRound      []*simrt.Inode // snapshot right before each further in-process round
 }
 
 func commandPattern(n *Node) string {
@@ -298,8 +299,21 @@ func Program(w *WF, rt *Runtime) {
 	default:
 		wf.RunTo(w.RunTo...)
 	}
-	// the workflow program reports completion and snapshots its directory
 	s := simrt.S
+	for _, del := range w.Rounds {
+		// the driver program deletes some results and runs the workflow again:
+		// same process, library globals keep whatever they accumulated
+		for _, ap := range del {
+			if dir := simrt.Find(s.FS.Root, ap[:strings.LastIndex(ap, "/")]); dir != nil {
+				delete(dir.Ents, ap[strings.LastIndex(ap, "/")+1:])
+				delete(dir.Ents, ap[strings.LastIndex(ap, "/")+1:]+".audit.json")
+			}
+		}
+		s.Note("ROUND", fmt.Sprintf("%d file(s) deleted", len(del)))
+		rt.PreRound = append(rt.PreRound, s.FS.Snapshot())
+		Build(w, rt).Run()
+	}
+	// the workflow program reports completion and snapshots its directory
 	rt.RunReturned = true
 	rt.ReturnStep = s.Steps
 	rt.ReturnSnap = s.FS.Snapshot()
